@@ -107,6 +107,15 @@ func script(seed int64, idx int) {
 			tr(fmt.Sprintf("mine %s tx=%x cl=%d in block %d", kind, tx.Hash[:4], cl, blk.Number))
 			vlib.CCount("txs_"+kind, 1)
 			h.Quiesce(3, 20*time.Second)
+			if kind == "core" && rng.Intn(2) == 0 {
+				// re-observed while the head is at the message's block but (in confirmation mode) not deep enough yet
+				tr(fmt.Sprintf("reobserve tx=%x (head at its block)", tx.Hash[:4]))
+				if !h.Reobserve(tx.Hash, 25*time.Second) {
+					vlib.CFinding("reobserve:request-not-handled-within-watchdog", map[string]interface{}{"script": desc, "trace": trace})
+					return
+				}
+				vlib.CCount("reobservation_requests", 1)
+			}
 			// now the head jumps
 			need := uint64(0)
 			if md == "bsc" {
